@@ -377,6 +377,11 @@ def logical_lines(text, marker):
 PREAMBLE = """
 character(len=40), parameter :: verif_a = 'warning! state left the region', verif_b = 'clamping it! now', verif_c = 'x'
 integer, parameter :: verif_k = 3 ! a trailing comment that makes this line considerably longer than eighty columns
+type verif_t
+  real*8 :: member_alpha, member_beta, member_gamma, member_delta, member_epsilon, member_zeta, member_eta
+   integer :: count_alpha, count_beta, count_gamma, count_delta, count_epsilon, count_zeta, count_eta_2, n
+ real*8 :: other_alpha, other_beta, other_gamma, other_delta, other_epsilon, other_zeta, other_eta, other_n
+end type
 character(len=60), parameter :: verif_d = "it's a text with an exclamation mark! and more of it", verif_e = 'y'
 """
 
